@@ -25,6 +25,9 @@ pub struct Case {
     pub layers: Vec<Layer>,
     /// permutations of the layer indices (the identity is always run first)
     pub perms: Vec<Vec<usize>>,
+    /// walk with `LinkBehavior::ReadTarget` (link errors are the only error items tolerated)
+    #[serde(default)]
+    pub follow: bool,
 }
 
 fn gen_perm(t: &mut Tape, n: usize) -> Vec<usize> {
@@ -68,7 +71,7 @@ impl Property for C16 {
         448
     }
     fn required_counters(&self) -> Vec<&'static str> {
-        vec!["orders_run", "stacks_with_disagreeing_layers", "tree_then_file_on_same_directory", "two_tree_verdicts_same_directory", "upstream_discarded_entry_observed_downstream", "distinct_orders_2plus"]
+        vec!["orders_run", "stacks_with_disagreeing_layers", "tree_then_file_on_same_directory", "two_tree_verdicts_same_directory", "upstream_discarded_entry_observed_downstream", "distinct_orders_2plus", "read_target_runs"]
     }
     fn decode(&self, t: &mut Tape) -> Case {
         let tree = gen_tree(t, &TreeCfg { links: true, ..TreeCfg::default() });
@@ -96,7 +99,8 @@ impl Property for C16 {
         let n = layers.len();
         let k = 2 + t.below(3);
         let perms = (0..k).map(|_| gen_perm(t, n)).collect();
-        Case { tree, base, under, layers, perms }
+        let follow = t.chance(64);
+        Case { tree, base, under, layers, perms, follow }
     }
     fn shrink(&self, c: &Case) -> Vec<Case> {
         let mut out = Vec::new();
@@ -176,15 +180,51 @@ impl Property for C16 {
                 }
             }
         }
-        let entries = underlying_entries(&base_abs, glob_rt.as_ref(), false, None);
+        let entries = underlying_entries(&base_abs, glob_rt.as_ref(), case.follow, None);
+        let beh = WalkBehavior { link: if case.follow { wax::walk::LinkBehavior::ReadTarget } else { wax::walk::LinkBehavior::ReadFile }, ..WalkBehavior::default() };
+        if case.follow {
+            st.count("read_target_runs");
+        }
+        // under ReadTarget re-entrant and dangling links are error items also on a fault-free tree
+        let link_errors: BTreeSet<String> = if case.follow {
+            let (start, prefix) = match &glob_rt {
+                Some(g) if !g.prefix.is_empty() => (base_abs.join(&g.prefix), g.prefix.clone()),
+                _ => (base_abs.clone(), String::new()),
+            };
+            ref_walk(&start, true)
+                .into_iter()
+                .filter_map(|i| match i {
+                    RefItem::Error { rel, .. } => {
+                        let mut p = base_given.clone();
+                        if !prefix.is_empty() {
+                            p = p.join(&prefix);
+                        }
+                        if !rel.is_empty() {
+                            p = p.join(&rel);
+                        }
+                        Some(norm(&p))
+                    },
+                    _ => None,
+                })
+                .collect()
+        }
+        else {
+            BTreeSet::new()
+        };
+        let foreign_error = |items: &[crate::props::c03::Item]| -> bool {
+            items.iter().any(|i| match &i.seen {
+                Seen::Err { path, .. } => !path.as_ref().map_or(false, |p| link_errors.contains(p)),
+                _ => false,
+            })
+        };
         // the glob's own pruning is observed from a bare run (one probe, no layers) and validated
         let observed = match &glob_rt {
             None => None,
             Some(g) => {
                 let cap0 = 20 * (entries.len() + 10);
-                match guard(|| run_stack(&base_given, &case.under, &[], WalkBehavior::default(), cap0)) {
+                match guard(|| run_stack(&base_given, &case.under, &[], beh, cap0)) {
                     Ok(Ok(Some(o))) => {
-                        if o.capped || o.items.iter().any(|i| i.rel.is_none()) {
+                        if o.capped || foreign_error(&o.items) {
                             return Err(format!("glob `{}`: the bare walk does not terminate or yields an error item on a fault-free tree", g.glob));
                         }
                         let fed: std::collections::BTreeSet<String> = o.logs.last().unwrap().iter().cloned().collect();
@@ -253,7 +293,7 @@ impl Property for C16 {
         let mut first_yield: Option<BTreeSet<String>> = None;
         for order in &orders {
             let stack: Vec<Layer> = order.iter().map(|i| case.layers[*i].clone()).collect();
-            let run = guard(|| run_stack(&base_given, &case.under, &stack, WalkBehavior::default(), cap));
+            let run = guard(|| run_stack(&base_given, &case.under, &stack, beh, cap));
             let out = match run {
                 Ok(Ok(Some(o))) => o,
                 Ok(Ok(None)) => return Ok(()),
@@ -278,11 +318,11 @@ impl Property for C16 {
             if out.capped {
                 return Err(format!("{}: the walk did not terminate within {} items", describe(), cap));
             }
-            if out.items.iter().any(|i| i.rel.is_none()) {
+            if foreign_error(&out.items) {
                 return Err(format!("{}: error item on a fault-free tree", describe()));
             }
             let yielded: BTreeSet<String> = out.items.iter().filter_map(|i| i.rel.clone()).collect();
-            if yielded != m.yielded || out.items.len() != m.yielded.len() {
+            if yielded != m.yielded || out.items.iter().filter(|i| i.rel.is_some()).count() != m.yielded.len() {
                 let lost: Vec<&String> = m.yielded.difference(&yielded).collect();
                 let back: Vec<&String> = yielded.difference(&m.yielded).collect();
                 return Err(format!(
